@@ -153,6 +153,19 @@ Definition scan_note (st : lstate) (l : chars) : option (chars * lstate * list s
     end
   end.
 
+(* the rest letter: r or rr (character tests with Ascii.eqb: same function as literal patterns, simpler proofs) *)
+Definition scan_rest_letter (r2 : chars) : option (chars * chars) :=
+  match r2 with
+  | c0 :: r3 =>
+    if Ascii.eqb c0 "r" then
+      match r3 with
+      | c1 :: x => if Ascii.eqb c1 "r" then Some (["r"; "r"]%char, x) else Some (["r"%char], r3)
+      | [] => Some (["r"%char], r3)
+      end
+    else None
+  | [] => None
+  end.
+
 (* one rest: R* duration? r r? R* *)
 Definition scan_rest (st : lstate) (l : chars) : option (chars * lstate * list subtoken * chars) :=
   let '(d1, r1) := take_while is_rest_deco l in
@@ -162,25 +175,23 @@ Definition scan_rest (st : lstate) (l : chars) : option (chars * lstate * list s
   let started_digit := match r1 with c :: _ => is_digit c | [] => false end in
   match durs with
   | None => if started_digit then None else
-    match r2 with
-    | "r"%char :: r3 =>
-      let '(rr, r4) := match r3 with "r"%char :: x => (["r"; "r"]%char, x) | _ => (["r"%char], r3) end in
+    match scan_rest_letter r2 with
+    | Some (rr, r4) =>
       let '(d2, r5) := take_while is_rest_deco r4 in
       let deco := add_decos (add_decos (ls_deco st) d1) d2 in
       Some ((d1 ++ rr ++ d2)%list, {| ls_deco := deco; ls_dur := ls_dur st |},
             (ls_dur st ++ [{| st_enc := "r"; st_cat := REST |}])%list, r5)
-    | _ => None
+    | None => None
     end
   | Some ds =>
-    match r2 with
-    | "r"%char :: r3 =>
-      let '(rr, r4) := match r3 with "r"%char :: x => (["r"; "r"]%char, x) | _ => (["r"%char], r3) end in
+    match scan_rest_letter r2 with
+    | Some (rr, r4) =>
       let '(d2, r5) := take_while is_rest_deco r4 in
       let deco := add_decos (add_decos (ls_deco st) d1) d2 in
       let dur := mk_durs ds in
       Some ((d1 ++ chars_of_string (String.concat "" ds) ++ rr ++ d2)%list, {| ls_deco := deco; ls_dur := dur |},
             (dur ++ [{| st_enc := "r"; st_cat := REST |}])%list, r5)
-    | _ => None
+    | None => None
     end
   end.
 
